@@ -85,6 +85,15 @@ template <class S> static void explore(const std::string& sol, const std::vector
   }
   long hist = 0, viol = 0, aborted = 0; Elem base;
   size_t w0 = sizeof(S) == 8 ? 8 : 10;
+  // reference for (e), taken BEFORE this process has evaluated anything in this scalar type (a child forked later would inherit whatever
+  // the evaluators have bound or cached by then): the values of assignment B = 1.0625 x base, computed on a handle of its own
+  std::string ref;
+  if (n > 0) {
+    LD cb0[4]; for (int k = 0; k < 4; k++) cb0[k] = R.c0[k];
+    int pfd[2]; if (pipe(pfd)) _exit(4); fflush(out); pid_t c = fork();
+    if (c == 0) { close(pfd[0]); int dn = open("/dev/null", O_WRONLY); dup2(dn, 1); close(dn); masa_init<S>("fresh_b", sol); for (int i = 0; i < n; i++) masa_set_param<S>(R.names[i], (S)(R.base[i] * 1.0625L)); std::string v = R.eval_all(cb0); ssize_t wr = write(pfd[1], v.data(), v.size()); (void)wr; _exit(0); }
+    close(pfd[1]); char b[8192]; ssize_t r; while ((r = read(pfd[0], b, sizeof b)) > 0) ref.append(b, r); close(pfd[0]); int st; waitpid(c, &st, 0); if (!WIFEXITED(st) || WEXITSTATUS(st) != 0) ref.clear();
+  }
   // (d) process-global C state the library does not own: errno left behind by anybody's libm call and the floating-point exception flags.
   // The bits of every evaluator at the base element must not depend on them.
   {
@@ -99,22 +108,19 @@ template <class S> static void explore(const std::string& sol, const std::vector
   // on B it returns the bits a fresh process computes for B's assignment, back on A the bits of A.
   if (n > 0) {
     LD cb0[4]; R.apply(base, 0, 0, cb0); std::string va = R.eval_all(cb0);
-    int pi = n / 2; if (pi == R.iMu) pi = 0; LD bval = R.base[pi] * 1.5L + 0.25L;
-    std::string ref;  // B's values from a process that never saw A
-    { int pfd[2]; if (pipe(pfd)) _exit(4); fflush(out); pid_t c = fork();
-      if (c == 0) { close(pfd[0]); int dn = open("/dev/null", O_WRONLY); dup2(dn, 1); close(dn); Runner<S> Q2 = R; Q2.cur.assign(n, NAN); masa_init<S>("fresh_b", sol); for (int i = 0; i < n; i++) Q2.set(i, i == pi ? bval : R.cur[i]); std::string v = Q2.eval_all(cb0); ssize_t wr = write(pfd[1], v.data(), v.size()); (void)wr; _exit(0); }
-      close(pfd[1]); char b[8192]; ssize_t r; while ((r = read(pfd[0], b, sizeof b)) > 0) ref.append(b, r); close(pfd[0]); int st; waitpid(c, &st, 0); if (!WIFEXITED(st) || WEXITSTATUS(st) != 0) ref.clear(); }
+    int pi = n / 2;  // B: every parameter 6 percent off A (each evaluator depends on at least one of them)
     if (ref.size() == va.size()) {
-      std::vector<LD> keep = R.cur; capture([&] { masa_init<S>("o2b", sol); }); R.cur.assign(n, NAN); for (int i = 0; i < n; i++) R.set(i, i == pi ? bval : keep[i]);
+      std::vector<LD> keep = R.cur; capture([&] { masa_init<S>("o2b", sol); }); R.cur.assign(n, NAN); for (int i = 0; i < n; i++) R.set(i, R.base[i] * 1.0625L);
       std::string vb = R.eval_all(cb0); capture([&] { masa_select_mms<S>("o2"); }); R.cur = keep; std::string va2 = R.eval_all(cb0); hist += 2;
       for (size_t k = 0; k < R.ev.size(); k++) {
-        if (vb.compare(k * w0, w0, ref, k * w0, w0) != 0 && viol < 40) { viol++; fprintf(out, "V\t%s\t%s\t%s/%s\ton a second handle of the same solution (parameter %s changed) the value differs from what a fresh process computes for that assignment: the evaluator does not follow the selection\n", sol.c_str(), scal, R.ev[k]->name, R.ev[k]->sig, R.names[pi].c_str()); }
+        if (vb.compare(k * w0, w0, ref, k * w0, w0) != 0 && viol < 40) { viol++; fprintf(out, "V\t%s\t%s\t%s/%s\ton a second handle of the same solution (all parameters 6 percent off, e.g. %s) the value differs from what a fresh process computes for that assignment: the evaluator does not follow the selection\n", sol.c_str(), scal, R.ev[k]->name, R.ev[k]->sig, R.names[pi].c_str()); }
         if (va2.compare(k * w0, w0, va, k * w0, w0) != 0 && viol < 40) { viol++; fprintf(out, "V\t%s\t%s\t%s/%s\tvalue on the first handle changed after a second handle of the same solution was initialised, modified and evaluated\n", sol.c_str(), scal, R.ev[k]->name, R.ev[k]->sig); }
       }
     }
   }
   std::cout.setstate(std::ios::failbit);
   bool fork_each = n <= 4;  // tiny solutions (sod_1d): one process per target, because an inadmissible element may make the library abort
+  if (getenv("O2_SELECTION_ONLY")) targets.clear();  // C12 runs part (e) only
   for (auto& e : targets) {
     LD c[4], cz[4], cb[4];
     pid_t tp = 0;
